@@ -24,7 +24,19 @@ RX_WEIGHTS = {
     "lc_h": 4, "lc_h+r": 4, "lc_c": 1, "j3pi_h": 3, "j3pi_h+r": 3, "ksp_h": 2, "ksp_h+r": 2,
     "ppg_h": 2, "ppg_h+r": 2, "ppg_c": 1, "psi4_h": 1, "d3pi_h": 2, "d3pi_h+r": 2,
     "kkpi_h": 2, "kkpi_h+r": 2, "dkpp_h": 2, "dkpp_h+r": 2, "etac_c": 2, "etac_c+r": 1,
+    "gpp_h@x": 1, "gpp_h@x+r": 1, "lc_h@x": 1, "lc_h@x+r": 1, "d3pi_h@x": 1, "d3pi_h@x+r": 1,
 }
+
+
+def _twin(tag: str) -> str | None:
+    """The same reaction with renamed intermediate particles (customised particle table), or back."""
+    base, relabelled = (tag[:-2], "+r") if tag.endswith("+r") else (tag, "")
+    if base.endswith("@x"):
+        return base[:-2] + relabelled
+    if base + "@x" in RX_WEIGHTS:
+        return base + "@x" + relabelled
+    return None
+
 DYN = ["non_dynamic", "bw", "bw", "bw_ff", "bw_analytic", "bw_swave", "bw_ffonly", "bw_edw", "probeA", "probeB", "non_dynamic_ff"]
 ALIGN = ["none", "axis", "dpd1", "dpd2", "dpd3"]
 
@@ -94,6 +106,9 @@ def generate(seed_: int, run: int, reactions: list[str], wild_hash_seeds: bool =
     fault_mode = rng.random() < 0.6
     # a run concentrates on 1-2 reaction families so that builders share cache entries
     focus = rng.choices(tags, weights=weights, k=rng.choice([1, 1, 2]))
+    if _twin(focus[0]) in tags and rng.random() < 0.5:
+        focus = [focus[0], _twin(focus[0])]  # equal under qrules' equality, different names
+    relabelled = [t for t in tags if t.endswith("+r")]
     n_segments = rng.choice([1, 1, 2, 3])
     # swarm knobs: few builder kinds and few selections per run => the same nodes get re-assigned
     dyn = rng.sample(DYN, k=rng.choice([2, 3, 4])) if rng.random() < 0.7 else DYN
@@ -111,7 +126,16 @@ def generate(seed_: int, run: int, reactions: list[str], wild_hash_seeds: bool =
         for _ in range(rng.randrange(3, 13)):
             slot = rng.randrange(n_builders)
             r = rng.random()
-            if r < 0.12:
+            if r < 0.04 and relabelled:
+                # churn: short-lived builders on deep copies of *other* reactions are created, aligned,
+                # formulated and released, so that later objects may reuse their addresses
+                for _ in range(rng.choice([2, 3])):
+                    tag = rng.choice(relabelled)
+                    extra = n_builders + rng.randrange(3)
+                    ops += [{"op": "new", "b": extra, "rx": tag, "copy": True},
+                            {"op": "align", "b": extra, "v": rng.choice(["dpd1", "dpd2", "dpd3"])},
+                            {"op": "formulate", "b": extra}, {"op": "drop", "b": extra}]
+            elif r < 0.12:
                 # directed pattern: the same selection gets builder kind A, then kind B, with a
                 # formulate() after each, on this builder or on another one of the same reaction
                 sel = {"kind": rng.choice(["name", "name", "decay"]), "i": rng.randrange(sel_range), "n": 0}
